@@ -73,6 +73,8 @@ pub enum MetaVal {
     /// `depth` levels of nesting around `inner`; arrays if `arr`, else objects
     /// with key "k".
     Nest(u32, bool, Box<MetaVal>),
+    /// verbatim JSON text (used when re-importing what another store printed)
+    J(String),
 }
 
 impl MetaVal {
@@ -95,6 +97,7 @@ impl MetaVal {
                 }
                 V::Object(m)
             }
+            MetaVal::J(text) => parse_json_deep(text.as_bytes()).expect("J holds printed JSON"),
             MetaVal::Nest(depth, arr, inner) => {
                 let mut cur = inner.to_json();
                 for _ in 0..*depth {
@@ -117,6 +120,34 @@ impl MetaVal {
             MetaVal::A(v) => 1 + v.iter().map(|x| x.depth()).max().unwrap_or(0),
             MetaVal::O(kv) => 1 + kv.iter().map(|x| x.1.depth()).max().unwrap_or(0),
             MetaVal::Nest(d, _, inner) => d + inner.depth(),
+            MetaVal::J(text) => {
+                let mut depth = 0u32;
+                let mut max = 0u32;
+                let mut in_str = false;
+                let mut esc = false;
+                for b in text.bytes() {
+                    if in_str {
+                        if esc {
+                            esc = false;
+                        } else if b == b'\\' {
+                            esc = true;
+                        } else if b == b'"' {
+                            in_str = false;
+                        }
+                    } else {
+                        match b {
+                            b'"' => in_str = true,
+                            b'[' | b'{' => {
+                                depth += 1;
+                                max = max.max(depth);
+                            }
+                            b']' | b'}' => depth = depth.saturating_sub(1),
+                            _ => {}
+                        }
+                    }
+                }
+                max
+            }
             _ => 0,
         }
     }
@@ -127,6 +158,7 @@ impl MetaVal {
             MetaVal::A(v) => v.iter().any(|x| x.has_float()),
             MetaVal::O(kv) => kv.iter().any(|x| x.1.has_float()),
             MetaVal::Nest(_, _, inner) => inner.has_float(),
+            MetaVal::J(text) => text.contains('.') || text.contains('e'),
             _ => false,
         }
     }
@@ -134,6 +166,7 @@ impl MetaVal {
     pub fn is_object(&self) -> bool {
         match self {
             MetaVal::O(_) => true,
+            MetaVal::J(text) => text.starts_with('{'),
             MetaVal::Nest(d, arr, inner) => {
                 if *d == 0 {
                     inner.is_object()
@@ -232,7 +265,8 @@ impl FrameSpec {
             context_id: Scru128Id::from(self.ctx),
             id: Scru128Id::from(self.id.unwrap_or(0)),
             hash,
-            meta: self.meta.as_ref().map(|m| m.to_json()),
+            // (top-level null meta and absent meta are one thing on every wire format)
+            meta: self.meta.as_ref().map(|m| m.to_json()).filter(|m| !m.is_null()),
             ttl: self.ttl.as_ref().map(|t| t.to_xs()),
         })
     }
